@@ -1,6 +1,9 @@
 import RulesModel.Tie.Common
+import RulesModel.Proofs.TableSem
 /-! Tie T2 (IntOperation and FloatOperation): shapes of the methods as read from the Go source by the translator -/
 namespace Rules.Tie
 theorem OpsNumeric_keys : (rowsOf ["IntOperation.", "FloatOperation."] Generated.opTable).map (·.1) = (rowsOf ["IntOperation.", "FloatOperation."] Expected.opTable).map (·.1) := by decide +kernel
 theorem OpsNumeric_tie : (rowsOf ["IntOperation.", "FloatOperation."] Generated.opTable).all (rowOK Expected.opTable) = true := by decide +kernel
+/-- semantic form: each recognised row parses to the code whose meaning `TableSem.opTable_sem` proves to be the model's function -/
+theorem OpsNumeric_sem : TableSem.codesOK Generated.opTable [.int, .float] = true := by decide +kernel
 end Rules.Tie
